@@ -809,12 +809,57 @@ def runMultiSection (r : Report) (s : Section) : Report := Id.run do
     else if (kv? l.obs "x.values").isSome then r := r.mismatch s.idx l.idx "x.values=<absent>" "x.values=<present>"
   return r
 
+/-! listener sections (`h=lsn n=<n>`): n subscribers on one watcher; a subscriber is closed during a delivery
+  put <k> <v> | del <k> | batch … | closein <i> <j> events… | closegate <i> <j> events… | close <i>
+  => <s>.values=<ids> <s>.n=<callbacks>     for every subscriber open after the operation -/
+def runLsnSection (r : Report) (s : Section) : Report := Id.run do
+  let n := kvNat s.cfg "n" 3
+  let mut r := r
+  let mut reg : Map Nat := []
+  let mut live : List Nat := List.range n
+  for l in s.lines do
+    let parsed : Option (List Ev × Option (Nat × Nat)) :=
+      match l.op with
+      | ["put", k, v] => do pure ([.put (← k.toNat?) (← v.toNat?)], none)
+      | ["del", k] => do pure ([.del (← k.toNat?)], none)
+      | "batch" :: ts => do pure ((← ts.mapM parseBatchTok), none)
+      | "closein" :: i :: j :: ts | "closegate" :: i :: j :: ts => do pure ((← ts.mapM parseBatchTok), some ((← i.toNat?), (← j.toNat?)))
+      | ["close", i] => do pure ([], some ((← i.toNat?), (← i.toNat?)))
+      | _ => none
+    let some (evs, cl) := parsed | r := r.mismatch s.idx l.idx "bad-op" (joinSp l.op)
+    match cl with
+    | some (i, j) =>
+      if !(live.contains i) || !(live.contains j) then
+        r := r.mismatch s.idx l.idx "bad-op" (joinSp (l.op ++ ["=>"] ++ l.obs))
+        continue
+      if l.op.head? != some "close" then
+        let pi := (live.takeWhile (· ≠ i)).length
+        let pj := (live.takeWhile (· ≠ j)).length
+        r := r.addCover (if pi < pj then "close-during-delivery-of-an-earlier-listener" else if pi = pj then "close-during-delivery-of-itself" else "close-during-delivery-of-a-later-listener")
+        r := r.addCover s!"lsn-{l.op.headD "?"}"
+      live := live.filter (· ≠ i)
+    | none => pure ()
+    r := { r with ops := r.ops + 1 }
+    r := r.addCover s!"lsn-listeners-{live.length}"
+    reg := evs.foldl Spec.apply reg
+    let want := showNats (Spec.viewList reg)
+    for i in live do
+      let vals := kvStr l.obs s!"{i}.values" "?"
+      let cnt := kvStr l.obs s!"{i}.n" "?"
+      -- every remaining listener is told every event exactly once, and shows the registry
+      if cnt ≠ toString evs.length then
+        r := r.violation s.idx l.idx s!"listener-not-notified-exactly-once-per-event subscriber={i} callbacks={cnt} events={evs.length} op=[{joinSp l.op}] (a subscriber on the same key was closed during the delivery)"
+      if vals ≠ want then
+        r := r.violation s.idx l.idx s!"view-differs-from-registry spec=[{want}] impl=[{vals}] excl=false op=[{joinSp l.op}] registry=[{showMapping reg}] subscriber={i} of {n} on one watcher"
+  return r
+
 def runSection (r : Report) (s : Section) : Report := Id.run do
   if kvStr s.cfg "h" "" = "pub" then return runPubSection r s
   if kvStr s.cfg "h" "" = "kube" then return runKubeSection r s
   if kvStr s.cfg "h" "" = "conc" then return runConcSection r s
   if kvStr s.cfg "h" "" = "build" then return runBuildSection r s
   if kvStr s.cfg "h" "" = "multi" then return runMultiSection r s
+  if kvStr s.cfg "h" "" = "lsn" then return runLsnSection r s
   let excl := kvNat s.cfg "excl" 0 = 1
   let mut st : St := { excl := excl, cl := { cont := Container.new excl } }
   let mut r := r
